@@ -679,6 +679,13 @@ def run_property(pid, tier):
     if pid not in props.PROPS:
         log(f"unknown property {pid}")
         return 2
+    # two runs of the SAME property share .work/<id>, replays/<id> and evidence/<id>.json: one after the other
+    with Lock("property-" + pid):
+        return _run_property(pid, tier)
+
+
+def _run_property(pid, tier):
+    from . import props
     cfg = props.PROPS[pid]
     run = Run(pid, tier)
     run.cov["rule"] = cfg.get("rule", "")
